@@ -140,7 +140,9 @@ def rng_call(mod, call):
 
 
 class Extractor:
-    def __init__(self, repo):
+    def __init__(self, repo, rng_call_hook=None):
+        # `rng_call_hook` (effects_rng.py): a wider reading of "a call that touches a global random generator"
+        self.rng_call = rng_call_hook or rng_call
         self.mods = []
         for pkg in PACKAGES:
             for dp, _dn, fns in sorted(os.walk(os.path.join(repo, pkg))):
@@ -170,7 +172,7 @@ class Extractor:
             cs = set()
             for n in ast.walk(fn):
                 if isinstance(n, ast.Call):
-                    if rng_call(m, n) not in (None, NOP):
+                    if self.rng_call(m, n) not in (None, NOP):
                         direct.add(key)
                     else:
                         nm = n.func.id if isinstance(n.func, ast.Name) else (n.func.attr if isinstance(n.func, ast.Attribute) else None)
@@ -249,7 +251,7 @@ class Extractor:
             return inner
         if isinstance(e, ast.Call):
             args = seq(*([E(a) for a in e.args] + [E(k.value) for k in e.keywords]))
-            r = rng_call(m, e)
+            r = self.rng_call(m, e)
             if r is not None:
                 return seq(args, r)
             fexp = E(e.func) if not isinstance(e.func, ast.Name) else NOP
